@@ -555,6 +555,8 @@ type MergeCLICase struct {
 	// JdYaml: with -yaml the target is written by jd's own Yaml() (block
 	// scalars for multi-line strings) instead of the harness's emitter.
 	JdYaml bool `json:"jd_yaml,omitempty"`
+	// OutFile: the result goes to -o over an existing longer file.
+	OutFile bool `json:"out_file,omitempty"`
 }
 
 func checkC12CLI(c MergeCLICase, r *rec.Rec) error {
@@ -592,6 +594,10 @@ func checkC12CLI(c MergeCLICase, r *rec.Rec) error {
 		}
 	}
 	var res CLIResult
+	if c.OutFile {
+		writeFile(dir, "out", strings.Repeat("stale content of an earlier run\n", 100))
+		args = append(args, "-o=out")
+	}
 	if c.Stdin {
 		res = runCLI(c.Bin, append(args, "p"), &targetText, dir)
 	} else {
@@ -600,6 +606,12 @@ func checkC12CLI(c MergeCLICase, r *rec.Rec) error {
 	}
 	if err := cliTrouble(res); err != nil {
 		return err
+	}
+	if c.OutFile && res.Status == 0 {
+		if res.Stdout != "" {
+			return viol("%s %s p t with -o prints %q to standard output", c.Bin, strings.Join(args, " "), res.Stdout)
+		}
+		res.Stdout = readFileOr(dir, "out")
 	}
 	desc := fmt.Sprintf("%s %s p t (p=%s t=%s)", c.Bin, strings.Join(args, " "), c.Patch, targetText)
 	if res.Status != 0 {
@@ -664,14 +676,17 @@ func genC12CLI(t *rapid.T) MergeCLICase {
 		to[gen.Pick(t, "mlk", []string{"zz", "text", "a"})] = gen.Pick(t, "mlv", []val.V{"line\n", "two\nlines\n", "keep\n\n", "nbsp\u00a0", " lead", "x\n "})
 	}
 	patch := genMergeDoc(t, target)
-	if po, ok := patch.(map[string]val.V); ok && gen.Chance(t, "payloadMember", 50) {
+	if _, isObj := target.(map[string]val.V); isObj && gen.Chance(t, "emptyPatch", 6) {
+		patch = map[string]val.V{}
+	}
+	if po, ok := patch.(map[string]val.V); ok && len(po) > 0 && gen.Chance(t, "payloadMember", 50) {
 		// values on which JSON and YAML readers disagree, and text a
 		// formatting verb would mangle
 		po[gen.Pick(t, "pk", []string{"p", "100%", "a"})] = gen.Pick(t, "pv", hostileMergeValues)
 	}
 	return MergeCLICase{
 		Target: val.JSON(target), Patch: val.JSON(patch),
-		Yaml: gen.Chance(t, "yaml", 35), Stdin: gen.Chance(t, "stdin", 20), JdYaml: gen.Chance(t, "jdYaml", 50),
+		Yaml: gen.Chance(t, "yaml", 35), Stdin: gen.Chance(t, "stdin", 20), JdYaml: gen.Chance(t, "jdYaml", 50), OutFile: gen.Chance(t, "outFile", 25),
 		Bin: gen.Pick(t, "bin", []string{"jd-v2", "jd-v2", "jd-top"}),
 	}
 }
